@@ -75,6 +75,8 @@ func flavorSrc(pre string, k int, f *Flavor) string {
 		}
 		if v.noDefault() {
 			b.WriteString(v.name())
+		} else if v.Nil {
+			b.WriteString("(" + v.name() + " nil)")
 		} else {
 			fmt.Fprintf(&b, "(%s %d)", v.name(), v.D)
 		}
@@ -420,13 +422,6 @@ func (k *monitor) checkSlots(what string, lv *live) {
 			return
 		}
 		if g, w := sl.Show(v), show(lv.m.vars[n]); g != w {
-			if k.w.shadowed(lv.m.t, n) && g == "nil" {
-				k.fail("fail=var-default shadowed-by=variable-without-default", "%s: variable %s of an instance of f%d is nil, model says %s: "+
-					"a flavor earlier in precedence names %s without a default, which hides the default a later flavor gives",
-					what, n, lv.m.t, w, n)
-				lv.m.vars[n] = nil
-				continue
-			}
 			k.fail("fail=var-value at="+strings.SplitN(what, " ", 2)[0], "%s: variable %s of an instance of f%d is %s, model says %s", what, n, lv.m.t, g, w)
 			return
 		}
@@ -634,10 +629,6 @@ func (k *monitor) checkFlavor(t int) {
 	wantVars := map[string]string{}
 	for n, v := range in.vars {
 		wantVars[n] = show(v)
-		// reported once, through the instance variables
-		if k.w.shadowed(t, n) && vars[n] == "nil" {
-			wantVars[n] = "nil"
-		}
 	}
 	if fmt.Sprint(vars) != fmt.Sprint(wantVars) {
 		k.fail("fail=describe what=variable-defaults", "describe-flavor f%d lists variables %v, model says %v", t, vars, wantVars)
@@ -955,7 +946,6 @@ func init() {
 			"reference model; for every template case and every second seeded case the same forms are also evaluated in the reference order (each flavor directly " +
 			"followed by its methods) under other names and all final observations of the two histories are compared without the model. " +
 			"distinct = distinct case JSON; non-trivial = at least one observed send combined daemons of 2 or more flavors. " +
-			"minority (open finding): variables named without a default in front of a default (1 case in 8). " +
 			"not generated: :included-flavors on a flavor with components or on an abstract flavor and a flavor included twice (position not specified), :required-methods",
 		N:        nCases,
 		Gen:      gen,
